@@ -25,4 +25,25 @@ with open(os.path.join(root, "MATRIX.md"), "w") as f:
     f.write("# Seeded breaking changes: catch matrix\n\n%d changes, %d caught (%d in the quick tier).  Regenerate with tools/seeded_matrix.py after tools/seeded.py.\n\n" % (tot, caught, quick))
     f.write("| id | change | needs | caught by | check strengthened because it first escaped |\n|---|---|---|---|---|\n")
     f.write("\n".join(rows) + "\n")
+by = {}
+for r in rows:
+    cells = [c.strip() for c in r.strip("|").split("|")]
+    prop = cells[0].split("-")[0]
+    b = by.setdefault(prop, [0, 0, 0, 0])
+    b[0] += 1
+    b[1] += cells[3] == "quick"
+    b[2] += cells[3] == "thorough"
+    b[3] += bool(cells[4])
+lines = ["%d seeded changes are kept; %d are caught by the registered checks (%d already by the quick tier); %d first escaped and led to a widening."
+         % (tot, caught, quick, sum(b[3] for b in by.values())), "",
+         "| property | seeded | caught in quick | caught in thorough only | not caught | first escaped (check widened) |", "|---|---|---|---|---|---|"]
+for prop in sorted(by):
+    b = by[prop]
+    lines.append("| %s | %d | %d | %d | %d | %d |" % (prop, b[0], b[1], b[2], b[0] - b[1] - b[2], b[3]))
+dp = os.path.join(HERE, "DESIGN.md")
+ds = open(dp).read()
+a, z = "<!-- seeded-summary:begin -->", "<!-- seeded-summary:end -->"
+if a in ds and z in ds:
+    ds = ds[:ds.index(a) + len(a)] + "\n" + "\n".join(lines) + "\n" + ds[ds.index(z):]
+    open(dp, "w").write(ds)
 print(tot, caught, quick)
